@@ -142,7 +142,7 @@ impl<IO> Connection<IO> {
 
             // Try to parse response data from the initialized section of the buffer, removing the
             // consumed parts from the buffer
-            let maybe_parsed = response_builder.parse(&mut self.recv_buf)?;
+            let maybe_parsed = response_builder.parse(&mut self.recv_buf);
 
             // Update the length of the initialized section to the remaining length
             self.total_received = self.recv_buf.len();
@@ -150,6 +150,9 @@ impl<IO> Connection<IO> {
             // Join back the remaining data with the main buffer, and readjust the length
             self.recv_buf.unsplit(remaining);
             self.recv_buf.resize(buf_size, 0);
+
+            // Only propagate a parse error after the buffer has been restored
+            let maybe_parsed = maybe_parsed?;
 
             if let Some(response) = maybe_parsed {
                 debug!(
